@@ -99,7 +99,7 @@ def run(tier, replay):
         cases = single + multi
         # one slow-consumer case beyond the reader's 3 s truncation check period, file without final newline is C01's; here: lines
         cases.append({"id": 9999, "cmds": [[3, 2]], "steps": [{"a": "send", "k": 1}] + [{"a": "read", "k": 0}] * 3, "pace": "stall", "stallat": 2,
-                      "stallms": 3600, "grep": False, "catlimit": 1, "seed": 7, "scale": 60, "lines": [[180, 131]], "shape": "CmdsOne2", "nofinalnl": True})
+                      "stallms": 3600, "grep": False, "catlimit": 1, "seed": 7, "scale": 60, "lines": [[700, 650]], "shape": "CmdsOne2", "nofinalnl": True})
         for i, c in enumerate(cases):
             c["id"] = i + 1
         cj, oj = os.path.join(wd, "cases.json"), os.path.join(wd, "out.json")
